@@ -10,6 +10,7 @@ mod ops_box;
 mod ops_boxobj;
 mod ops_curve;
 mod ops_hash;
+mod ops_huge;
 #[cfg(feature = "nightly")]
 mod ops_prot;
 mod ops_pwhash;
@@ -47,6 +48,9 @@ fn dispatch(op: &str, args: &[&str]) -> Ans {
         return a;
     }
     if let Some(a) = ops_stream::dispatch(op, args) {
+        return a;
+    }
+    if let Some(a) = ops_huge::dispatch(op, args) {
         return a;
     }
     ("bad-op".into(), "bad-op".into())
